@@ -11,4 +11,5 @@ for f in spec/*.tla; do
   case "$f" in *_TTrace*) continue;; esac
   (cd spec && java -cp /opt/veriftools/tla/tla2tools.jar:/opt/veriftools/tla/CommunityModules-deps.jar tla2sany.SANY "$(basename "$f")" >/dev/null 2>&1) || { echo "SANY failed on $f"; exit 1; }
 done
+./check selftest >/dev/null || { echo "machinery self-test failed"; exit 1; }
 echo "setup ok"
